@@ -614,14 +614,15 @@ class CompoundInterval(Location):
             ends = iter(self._ends)
             plus_strand = True
 
-        def do_work(rel_pos: int, _starts: Iterator[int], _ends: Iterator[int]):
-            start, end = (next(_starts), next(_ends))
-            block0_len = end - start
-            if rel_pos < block0_len:
+        rel_pos = relative_pos
+        for start, end in zip(starts, ends):
+            block_len = end - start
+            if rel_pos < block_len:
                 return start + rel_pos if plus_strand else end - 1 - rel_pos
-            return do_work(rel_pos - block0_len, _starts, _ends)
-
-        return do_work(relative_pos, starts, ends)
+            rel_pos -= block_len
+        raise InvalidPositionException(
+            f"Invalid relative position {relative_pos} for location of length {len(self)}"
+        )
 
     def relative_interval_to_parent_location(
         self, relative_start: int, relative_end: int, relative_strand: Strand
